@@ -158,6 +158,10 @@ fn value_passthrough(rep: &Report) -> u64 {
             ("group-by-having-order-by", Box::new(|d| build_any_d(Query::select().expr(Func::count(Expr::col(Asterisk))).from(a("t1")).add_group_by([Func::coalesce([Expr::col(a("s")).into(), Expr::val(v.clone()).into()]).into()]).and_having(Func::max(Expr::col(a("s"))).ne(v.clone())).order_by_expr(Func::coalesce([Expr::col(a("s")).into(), Expr::val(v.clone()).into()]).into(), Order::Desc).limit(2), d)), vec![v.clone(), v.clone(), v.clone(), Value::BigUnsigned(Some(2))]),
             ("window-partition", Box::new(|d| build_any_d(Query::select().expr_window_as(Func::count(Expr::col(Asterisk)), WindowStatement::partition_by_custom("1").add_partition_by(Func::coalesce([Expr::col(a("s")).into(), Expr::val(v.clone()).into()]).into()).order_by_expr(Func::coalesce([Expr::col(a("s")).into(), Expr::val(v.clone()).into()]).into(), Order::Asc).frame_start(FrameType::Rows, Frame::Preceding(2)).to_owned(), a("w")).from(a("t1")), d)), vec![v.clone(), v.clone(), Value::Unsigned(Some(2))]),
             ("join-on-and-subquery", Box::new(|d| build_any_d(Query::select().column(a("a")).from(a("t1")).join(JoinType::LeftJoin, a("t2"), Expr::col((a("t2"), a("s"))).eq(v.clone())).and_where(Expr::col(a("a")).in_subquery(Query::select().column(a("c")).from(a("t2")).and_where(Expr::col(a("s")).ne(v.clone())).to_owned())).and_where(Expr::exists(Query::select().expr(Expr::val(v.clone())).to_owned())), d)), vec![v.clone(), v.clone(), v.clone()]),
+            ("condition-all-member", Box::new(|d| build_any_d(Query::select().column(a("a")).from(a("t1")).cond_where(Cond::all().add(SimpleExpr::from(Expr::val(v.clone()))).add(Expr::col(a("a")).eq(1))).cond_having(Cond::all().add(Expr::col(a("a")).eq(2)).add(SimpleExpr::from(Expr::val(v.clone())))), d)), vec![v.clone(), one.clone(), two.clone(), v.clone()]),
+            ("condition-any-member", Box::new(|d| build_any_d(Query::update().table(a("t1")).value(a("a"), 1).cond_where(Cond::any().add(SimpleExpr::from(Expr::val(v.clone()))).add(Cond::all().not().add(SimpleExpr::from(Expr::val(v.clone()))).add(Expr::col(a("a")).eq(2)))), d)), vec![one.clone(), v.clone(), v.clone(), two.clone()]),
+            ("condition-single-member", Box::new(|d| build_any_d(Query::delete().from_table(a("t1")).and_where(SimpleExpr::from(Expr::val(v.clone()))), d)), vec![v.clone()]),
+            ("join-on-condition-member", Box::new(|d| build_any_d(Query::select().column(a("a")).from(a("t1")).join(JoinType::InnerJoin, a("t2"), Cond::any().add(SimpleExpr::from(Expr::val(v.clone()))).add(Expr::col((a("t2"), a("a"))).eq(1))).and_where(Expr::case(Cond::all().add(SimpleExpr::from(Expr::val(v.clone()))), 1).finally(2).into()), d)), vec![v.clone(), one.clone(), v.clone(), one.clone(), two.clone()]),
             ("on-conflict-and-returning", Box::new(|d| build_any_d(Query::insert().into_table(a("t1")).columns([a("id"), a("s")]).values_panic([1.into(), Expr::val(v.clone()).into()]).on_conflict(OnConflict::column(a("id")).value(a("s"), Expr::val(v.clone())).to_owned()), d)), vec![one.clone(), v.clone(), v.clone()]),
         ];
         for (pos, f, want) in &cases {
